@@ -493,15 +493,23 @@ Definition ht_inactivity (now : N) (s : rstate) : rstate * bool :=
   else
     ((if c_occurred ci then upd_inact (c_restart now) s else s), true).
 
-(* part 3: the NAK timer (receive-data phase) or the ACK timer (Finished / Cancelled) *)
-Definition ht_phase (now : N) (s : rstate) : rstate :=
+Definition is_recvdata (p : rphase) : bool := match p with RecvData => true | _ => false end.
+
+(* part 3: the NAK timer: on expiry the list of what is missing is rebuilt (receive-data phase,
+   immediate procedure or EOF received); with nothing to ask for the timer stops *)
+Definition ht_nak (now : N) (s : rstate) : rstate :=
+  let '(c, occ) := c_timeout_occurred now (t_nak (r_timer s)) in
+  let s := upd_nak (fun _ => c) s in
+  if occ then
+    let s := if is_recvdata (r_phase s) && (is_immediate (r_nakproc s) || eof_received s)
+             then set_r_naks (get_all_naks s) s else s in
+    if is_nil (r_naks s) then upd_nak (c_pause now) s else s
+  else s.
+
+(* part 4: the ACK timer (Finished / Cancelled) *)
+Definition ht_ackphase (now : N) (s : rstate) : rstate :=
   match r_phase s with
-  | RecvData =>
-      if is_immediate (r_nakproc s) || eof_received s then
-        let '(c, occ) := c_timeout_occurred now (t_nak (r_timer s)) in
-        let s := upd_nak (fun _ => c) s in
-        if occ then set_r_naks (get_all_naks s) s else s
-      else s
+  | RecvData => s
   | RFinished =>
       let '(c, lim) := c_limit_reached now (t_ack (r_timer s)) in
       let s := upd_ack (fun _ => c) s in
@@ -515,6 +523,8 @@ Definition ht_phase (now : N) (s : rstate) : rstate :=
       else if c_occurred c then upd_ack (c_restart now) (set_fin_flag true s)
       else s
   end.
+
+Definition ht_phase (now : N) (s : rstate) : rstate := ht_ackphase now (ht_nak now s).
 
 Definition handle_timeout (now : N) (s : rstate) : rstate :=
   let '(s, go) := ht_inactivity now (ht_delayed now s) in
@@ -620,6 +630,8 @@ Arguments has_naks {FS}.
 Arguments store_file_data {FS}.
 Arguments set_metadata {FS}.
 Arguments handle_timeout {FS}.
+Arguments ht_nak {FS}.
+Arguments ht_ackphase {FS}.
 Arguments mkR {FS}.
 Arguments emit_pdu {FS}.
 Arguments send_ack_eof {FS}.
